@@ -164,3 +164,21 @@ def world_program(chk, plan, subcases, wid, on_ok=None, extra_pre=None):
             except Unobservable as exc:
                 chk.inconclusive_because("cannot observe: %s" % exc)
     return Case(steps, judge_all, isolate=True)
+
+
+def currency_steps(currencies):
+    """steps that make the currencies of a {code: minor units | smallest
+    fraction} dict exist: ISO codes by register_currency, the others by
+    Money.new_unit(code, name, smallest_fraction=...)"""
+    from fractions import Fraction
+    from .ctl import num
+    money = ["g", "quantity.money:Money"]
+    out = []
+    for code, minor in currencies.items():
+        if isinstance(minor, Fraction):
+            out.append({"e": ["m", money, "new_unit",
+                              [["s", code], ["s", "user currency"]],
+                              {"smallest_fraction": num(minor, "D")}]})
+        else:
+            out.append({"e": M(money, "register_currency", ["s", code])})
+    return out
